@@ -115,6 +115,12 @@ func reachLabels(l la.Layout, idx *la.Index) map[string]string {
 				mark(m.Config.Digest, "config")
 			}
 			for _, x := range m.Layers {
+				if len(x.URLs) > 0 {
+					// a layer that also names external URLs: when the layout stores it, the manifest names it like
+					// any other layer
+					mark(x.Digest, "layer-with-urls")
+					continue
+				}
 				mark(x.Digest, "layer")
 			}
 		case "index":
